@@ -302,9 +302,13 @@ func sessionScript(rng *rand.Rand, seed int64, variant int) (Script, []string) {
 			sc.Actions = append(sc.Actions, Action{A: "dispatch", OnlyA: true, Who: "a4", Chain: "0002"})
 		}
 	}
-	// session ended at 8; the claim window is open from 9
-	claimAt := 9 + rng.Intn(3)
-	for h := 9; h <= 12; h++ {
+	// session ended at 8; claims are accepted from 9 to S + W*B = 13; later ones must be refused
+	// by every node, whether or not it has the session cached
+	claimAt := 9 + rng.Intn(8)
+	if variant >= 0 && variant < 8 && variant%2 == 1 {
+		claimAt = 14 + rng.Intn(3)
+	}
+	for h := 9; h <= 17; h++ {
 		var txs []map[string]interface{}
 		if h == claimAt {
 			txs = append(txs, map[string]interface{}{"kind": "claim", "node": "a2", "app": "a4", "chain": "0002", "sessionHeight": float64(5), "total": float64(5 + rng.Intn(20))})
